@@ -815,7 +815,7 @@ Verdict run_with(Case const& c, std::function<Q*()> make)
     makecontext(&eng.task_ctx[1], reinterpret_cast<void (*)()>(&Runner<Q, Unbounded>::consumer_entry), 0);
     eng.active = true;
     int cur = static_cast<int>(eng.rng.below(2));
-    uint64_t budget = 400000;
+    uint64_t budget = static_cast<uint64_t>(c.get("budget", 2000000));
     bool out_of_budget = false;
     auto runnable = [&](int t) -> bool
     {
